@@ -51,6 +51,8 @@ def concrete(kind, opt):
     a, b = ('BOS', 'JFK') if w else ('BOS', 'LAX')
     if kind in ('ok1', 'ok_other_model'):
         return mission(a, b), {}
+    if kind == 'ok_given_mass':
+        return mission(a, b), {'starting_mass': 75000.0}
     if kind == 'ok2':
         return (mission('JFK', 'BOS') if w else mission('SFO', 'ORD', load_factor=0.7)), {}
     if kind == 'unknown_origin':
@@ -254,8 +256,8 @@ def run_massiter(job):
 
 def run(ctx: Ctx):
     ctx.rule = (
-        'sequences = every sequence of N flights (N = 2 quick / 3 thorough; mass-iterating option sets one shorter) over 9 mission kinds '
-        '(2 valid, 1 valid flown with a second performance model, unknown origin/destination, destination above cruise level, overweight start, missing weather file, outside weather domain) '
+        'sequences = every sequence of N flights (N = 2 quick / 3 thorough; mass-iterating option sets one shorter) over 10 mission kinds '
+        '(2 valid, 1 valid flown with a second performance model, 1 valid with an explicit starting mass, unknown origin/destination, destination above cruise level, overweight start, missing weather file, outside weather domain) '
         'for 4 option sets, TLC-enumerated; with weather additionally every triple flown / any / flown; non-trivial = contains a failing flight followed by another flight'
     )
     ctx.assumptions += [
@@ -285,9 +287,15 @@ def run(ctx: Ctx):
         wtri = [s for s in three if s['opt'] == 'weather' and len(s['flights']) == 3 and s['flights'][0]['out'] == 'traj' and s['flights'][2]['out'] == 'traj']
         if ctx.quick:
             wtri = [s for s in wtri if s['flights'][0]['k'] == s['flights'][2]['k']]
+        # mass iteration: quick flies single flights plus every pair whose first flight passes an explicit starting mass
+        # (accepted or out of envelope) and whose second is flown without one
+        pairs = seqs if n == 2 else short
+        ipairs = [s for s in pairs if s['opt'] in ('iter', 'iter_tight') and len(s['flights']) == 2 and s['flights'][0]['k'] in ('ok_given_mass', 'overweight')
+                  and s['flights'][1]['k'] in ('ok1', 'ok2', 'ok_other_model')]
         seqs = (
             wtri
             + [s for s in seqs if s['opt'] == 'plain']
+            + (ipairs if ctx.quick else [])
             + [s for s in short if s['opt'] in ('iter', 'iter_tight')]
             + [s for s in one if s['opt'] == 'weather']
             + wsel
